@@ -1,3 +1,8 @@
+(* ReloadProofs.v — proofs about the reloader model Reload.v, for an arbitrary source over an
+   arbitrary world: arithmetic of the back-off window; what one atomic step may touch; the
+   safety invariant over all interleavings; the big-step reading of one check; sequential
+   histories; the window bound over all interleavings; convergence and its converse ("stuck")
+   for any source that is honest in a stable world. *)
 From Coq Require Import List Bool Arith QArith Lqa Lia.
 From Rbacx Require Import Reload.
 Import ListNotations.
